@@ -361,6 +361,25 @@ def pred_rx(case, impl):
 
 # ---------------------------------------------------------------------------------------------
 
+def rx_defines(g, mask):
+    """-D flags of the receiver harness: everything its dispatcher knows comes from the extracted table"""
+    sys.path.insert(0, os.path.join(vlib.VERIF, 'tools', 'gen'))
+    import bdat as genb
+    rc = genb.row_consts(g)
+    rb = g.const('qsmtpd/commands.c', 'smtp_rset', r'if \(comstate == (0x[0-9a-fA-F]+)\)\s*queue_reset\(\);', 'open BDAT transfer test')
+    rh = g.const('qsmtpd/commands.c', 'smtp_rset', r'if \(comstate >= (0x[0-9a-fA-F]+)\) \{\s*freedata\(\);', 'freedata threshold')
+    body = extract.func_body(g.text('qsmtpd/commands.c') or '', 'smtp_rset') or ''
+    import re
+    m = re.search(r'netwrite\("(250 [^"]*)"\)', body)
+    vals = dict(rc, rsetBdat=rb, rsetHelo=rh)
+    if any(v is None for v in vals.values()) or not m:
+        return None
+    return ['-DBDAT_MASK=%d' % mask, '-DRSET_MASK=%d' % rc['rsetMask'], '-DRSET_STATE=%d' % rc['rsetState'],
+            '-DMAIL_MASK=%d' % rc['mailMask'], '-DMAIL_STATE=%d' % rc['mailState'], '-DRCPT_MASK=%d' % rc['rcptMask'],
+            '-DRCPT_STATE=%d' % rc['rcptState'], '-DRSET_BDAT_STATE=%d' % rb, '-DRSET_HELO_STATE=%d' % rh,
+            '-DRSET_REPLY="%s"' % m.group(1)]
+
+
 def gen_consts(g):
     sys.path.insert(0, os.path.join(vlib.VERIF, 'tools', 'gen'))
     import bdat as genb
@@ -383,10 +402,10 @@ def rx_configs(ctx, unit):
     return tiny, normal, conf
 
 
-def build_all(ctx, mask, conf):
+def build_all(ctx, defines, conf):
     def one(item):
         b, val = item
-        return b, vlib.build_harness(ctx, 'h_bdat_rx_%d' % b, extra=['-DBDAT_MASK=%d' % mask, '-DINCOMING_CHUNK_SIZE=%s' % val],
+        return b, vlib.build_harness(ctx, 'h_bdat_rx_%d' % b, extra=defines + ['-DINCOMING_CHUNK_SIZE=%s' % val],
                                      sources=[os.path.join(vlib.VERIF, 'harness', 'h_bdat_rx.c')])
     with ThreadPoolExecutor(max_workers=4) as ex:
         rx = dict(ex.map(one, conf.items()))
@@ -413,7 +432,11 @@ def run(ctx):
         ctx.unshown.append('extract: BDAT constants not found: ' + '; '.join(g.broken[:3]))
         return vlib.finish(ctx)
     tiny, normal, conf = rx_configs(ctx, unit)
-    htx, hrx = build_all(ctx, mask, conf)
+    defines = rx_defines(g, mask)
+    if defines is None:
+        ctx.unshown.append('extract: RSET / MAIL FROM: / RCPT TO: rows or smtp_rset anchors not found: ' + '; '.join(g.broken[:3]))
+        return vlib.finish(ctx)
+    htx, hrx = build_all(ctx, defines, conf)
     corpus = corpus_cases()
     if htx:
         cases = [c for c in corpus if c.startswith('tx ')]
@@ -470,7 +493,7 @@ def replay(ctx, path):
     else:
         b = int(case.split()[1])
         val = str(b // unit) if b % unit == 0 else '1?%d:0' % b
-        h = vlib.build_harness(ctx, 'h_bdat_rx_%d' % b, extra=['-DBDAT_MASK=%d' % mask, '-DINCOMING_CHUNK_SIZE=%s' % val],
+        h = vlib.build_harness(ctx, 'h_bdat_rx_%d' % b, extra=(rx_defines(g, mask) or []) + ['-DINCOMING_CHUNK_SIZE=%s' % val],
                                sources=[os.path.join(vlib.VERIF, 'harness', 'h_bdat_rx.c')])
         pred, canon = pred_rx, canon_rx
     if not h:
